@@ -188,7 +188,14 @@ def units(tier, variant):
             or (op[0] == 'set_radius' and op[1] == 1)]
     for i in both:
         out.append(dict(kind='edits', lens='doublet', first=i, depth=5, restrict=both, variant=variant))
+    # pickups registered while source and target are still flat, then the source is given a radius (histories of length <= 4)
+    ops_w = edit_alphabet('plano-window', variant)
+    flat = [i for i, op in enumerate(ops_w) if op[0] == 'pickup' or op == ('update',) or op[0] == 'set_radius']
+    for i in flat:
+        out.append(dict(kind='edits', lens='plano-window', first=i, depth=4, restrict=flat, variant=variant))
     for name in initial_lenses(variant):
+        if name in CHAINS_ONLY:
+            continue
         ops = edit_alphabet(name, variant)
         for i in range(len(ops)):
             out.append(dict(kind='edits', lens=name, first=i, depth=2, variant=variant))
@@ -314,7 +321,12 @@ def initial_lenses(v):
     L['finite-tilted'] = (p['od'][0], [S('sphere', R=R, mat=g1, t=t[1], dy=p['dy'], rx=p['rx']), S('sphere', R=-R, mat='air', t=t[0], stop=True),
                                        S('plane', mat=g2, t=t[0], dx=p['dx'], ry=p['ry']), S('sphere', R=-2 * R, mat='air', t=R)])
     L['catalogue'] = (LZ.INF, [S('sphere', R=R, mat='N-BK7', t=t[1], stop=True), S('sphere', R=-R, mat='SF11', t=t[0]), S('plane', mat='air', t=1.5 * R)])
+    # a plano window that is bent into a lens by edits: pickup sources / targets are flat when the pickup is registered
+    L['plano-window'] = (LZ.INF, [S('plane', mat=g1, t=t[1], stop=True), S('plane', mat='air', t=2 * R)])
     return L
+
+
+CHAINS_ONLY = ('plano-window',)      # lenses used by the targeted pickup families only (afocal: no solves, no general histories)
 
 
 def edit_alphabet(name, v):
